@@ -46,6 +46,7 @@ template <class T> static void emitM (const char* fam, const Matrix22<T>& m) { e
 template <class T> static void emitM (const char* fam, const Matrix33<T>& m) { emitN<T> (fam, m, 3); }
 template <class T> static void emitM (const char* fam, const Matrix44<T>& m) { emitN<T> (fam, m, 4); }
 
+static uint64_t g_seed = 0;
 template <class T, class M, int N> static void families (Gen<T>& g, int it)
 {
     const int p = std::numeric_limits<T>::digits;     // 24 / 53
@@ -87,7 +88,11 @@ template <class T, class M, int N> static void families (Gen<T>& g, int it)
             case 0: for (int j = 0; j < N; ++j) m[g.rng.below (N)][j] = 0; emitM<T> ("zero-row", m); break;
             case 1: { int c = (int) g.rng.below (N); for (int i = 0; i < N; ++i) m[i][c] = 0; emitM<T> ("zero-col", m); break; }
             case 2: { int a = (int) g.rng.below (N), b = (a + 1 + (int) g.rng.below (N - 1)) % N; for (int j = 0; j < N; ++j) m[b][j] = m[a][j]; emitM<T> ("dup-row", m); break; }
-            case 3: { for (int i = 0; i < N; ++i) for (int j = 0; j < N; ++j) m[i][j] = (T) ((i + 1) * (j % 2 ? 3 : -2)); emitM<T> ("rank1", m); break; }
+            case 3: { // rank one, u (x) w, with every sign pattern of u and w over time (the adjugate's signs follow)
+                      T u[4], w[4]; int bits = (int) ((g_seed + (uint64_t) it / 5) % 16);      // the 16 shards cover all sign patterns of (u0, u1, w0, w1)
+                      bits = (bits & 3) | ((bits >> 2) << 4) | ((int) g.rng.below (4) << 2) | ((int) g.rng.below (4) << 6);
+                      for (int i = 0; i < N; ++i) { u[i] = (T) (1 + g.rng.below (4)) * (((bits >> i) & 1) ? T (-1) : T (1)) * (T) (it % 2 ? 0.25 : 1); w[i] = (T) (1 + g.rng.below (4)) * (((bits >> (4 + i)) & 1) ? T (-1) : T (1)); }
+                      for (int i = 0; i < N; ++i) for (int j = 0; j < N; ++j) m[i][j] = u[i] * w[j]; emitM<T> ("rank1", m); break; }
             default: { int a = 0, b = N - 1; for (int j = 0; j < N; ++j) m[b][j] = (T) 2 * m[a][j] - (N > 2 ? m[1][j] : 0); emitM<T> ("rank-n-1", m); break; }
         }
     }
@@ -136,6 +141,7 @@ template <class T> static void affine (Gen<T>& g)
 template <class T> static void all (uint64_t seed, int count)
 {
     Gen<T> g (seed);
+    g_seed = seed;
     for (int it = 0; it < count; ++it)
     {
         families<T, Matrix22<T>, 2> (g, it);
